@@ -46,6 +46,11 @@ package transport
 // C03/C09: the operation is dispatched only if CreateOperationContext returned no error, at most once, and
 // then no status line other than the implicit 200 is written.
 //@ func (POST).Do [C07,C10,C03,C09,C05]
+// C09: no body before the response headers (negotiated Content-Type, configured headers) are in place
+//@   callsite writeJson: requires calls(writeHeaders) >= 1
+//@   callsite writeJsonError: requires calls(writeHeaders) >= 1
+//@   callsite writeJsonErrorf: requires calls(writeHeaders) >= 1
+//@   callsite writeJsonGraphqlError: requires calls(writeHeaders) >= 1
 //@   ghost drained = false
 //@   at `responses(ctx)` ghost drained = callres0 == nil
 //@   ensures @C05 calls(DispatchOperation) >= 1 ==> drained
@@ -87,6 +92,7 @@ package transport
 //@   nopanic
 //@   pure
 //@ trusted (net/http.Header).Set(key, value)
+//@   modifies maps
 //@ trusted fmt.Fprint(w, a) (n, err)
 //@   nopanic
 //@   pure
@@ -112,6 +118,11 @@ package transport
 // C09: over GET only query operations are dispatched, and it is the operation selected by the executor
 // (op == opCtx.Operation) that is checked. C03: gate. C10: no own-code panic.
 //@ func (GET).Do [C09,C03,C10,C05]
+// C09: no body before the response headers (negotiated Content-Type, configured headers) are in place
+//@   callsite writeJson: requires calls(writeHeaders) >= 1
+//@   callsite writeJsonError: requires calls(writeHeaders) >= 1
+//@   callsite writeJsonErrorf: requires calls(writeHeaders) >= 1
+//@   callsite writeJsonGraphqlError: requires calls(writeHeaders) >= 1
 //@   replay deferLeak.go.tmpl
 //@   ghost drained = false
 //@   at `responses(ctx)` ghost drained = callres0 == nil
@@ -129,6 +140,11 @@ package transport
 
 // ---------------------------------------------------------------- application/graphql
 //@ func (GRAPHQL).Do [C09,C03,C10,C05]
+// C09: no body before the response headers (negotiated Content-Type, configured headers) are in place
+//@   callsite writeJson: requires calls(writeHeaders) >= 1
+//@   callsite writeJsonError: requires calls(writeHeaders) >= 1
+//@   callsite writeJsonErrorf: requires calls(writeHeaders) >= 1
+//@   callsite writeJsonGraphqlError: requires calls(writeHeaders) >= 1
 //@   replay deferLeak.go.tmpl
 //@   ghost drained = false
 //@   at `responses(ctx)` ghost drained = callres0 == nil
@@ -152,6 +168,11 @@ package transport
 //@   ensures res1 == nil ==> res0 != nil
 //@   safe
 //@ func (UrlEncodedForm).Do [C09,C03,C10,C05]
+// C09: no body before the response headers (negotiated Content-Type, configured headers) are in place
+//@   callsite writeJson: requires calls(writeHeaders) >= 1
+//@   callsite writeJsonError: requires calls(writeHeaders) >= 1
+//@   callsite writeJsonErrorf: requires calls(writeHeaders) >= 1
+//@   callsite writeJsonGraphqlError: requires calls(writeHeaders) >= 1
 //@   replay deferLeak.go.tmpl
 //@   ghost drained = false
 //@   at `responses(ctx)` ghost drained = callres0 == nil
@@ -291,6 +312,11 @@ package transport
 // multipart reader captures r.Body); every temporary file that was created has a deferred removal registered
 // before anything else can fail (ghost counters created/scheduled); gate as for the other transports.
 //@ func (MultipartForm).Do [C10,C03,C09,C05]
+// C09: no body before the response headers (negotiated Content-Type, configured headers) are in place
+//@   callsite writeJson: requires calls(writeHeaders) >= 1
+//@   callsite writeJsonError: requires calls(writeHeaders) >= 1
+//@   callsite writeJsonErrorf: requires calls(writeHeaders) >= 1
+//@   callsite writeJsonGraphqlError: requires calls(writeHeaders) >= 1
 //@   ghost drained = false
 //@   at `responses(ctx)` ghost drained = callres0 == nil
 //@   ensures @C05 calls(DispatchOperation) >= 1 ==> drained
@@ -402,8 +428,15 @@ package transport
 //@   modifies nothing
 //@ trusted (net/http.Header).Add(key, value)
 //@   modifies maps
+// whatever headers are configured, the response ends up with a Content-Type: one of the configured keys is
+// Content-Type (any case), or application/json is set
 //@ func writeHeaders [C09]
 //@   requires w != nil
+//@   ghost seenCT = false
+//@   at `strings.EqualFold(key, "Content-Type")` ghost seenCT = seenCT || callres0
+//@   loop 1: invariant hasContentType <==> seenCT
+//@   callsite Set: requires arg0 == "Content-Type" && arg1 == "application/json" && !seenCT
+//@   ensures seenCT || calls(Set) == 1
 //@   ensures calls(WriteHeader) == 0
 //@   modifies maps
 
